@@ -16,7 +16,7 @@ INFO = {
                    "size of valid()'s result (polynomial normal forms with uninterpreted npo2/div_ceil; syntactic equality, so a true "
                    "identity may be unproved but a false one is never accepted); (T) narrow-integer totality of the Prio3 honest "
                    "path under num_aggregators in [1,254], num_proofs in [1,255]; (N) lengths re-derived by the state decoder are "
-                   "scaled per proof like the constructing code. Additive sharing, circuit semantics and result decoding (values) "
+                   "scaled per proof like the constructing code. (R/D/J/V) term-level necessary conditions of the value-shaping code: the range-check offset is the field inverse of the share count, Average::decode_result is sum/n through u64 only, every site absorbs the same schedule into the joint-randomness part, and truncate / decode_result of every circuit have the stated shapes over the whole input. Additive sharing, circuit semantics and result decoding (values) "
                    "are NOT decided.",
     "trusted_base": ["rustc type checker and MIR construction (nightly)", "sa/poly.py normal forms", "axiom: deg(poly_range_check(0,2)) = 2",
                      "sa/ppa.py field table and std models"],
